@@ -58,8 +58,8 @@ def build(cfg):
         rules.append(rule([eqh(V("y"), V("z"))], [eqv(V("y"), W), cl("e", [V("y"), V("z")])]))
     elif feed == "rec_mid":
         rels.append(("mid", ar, "rel"))
-        # (the ternary form reads eq(k, y, x): sharing only column 2 with the next clause needs the index [2], see F2)
-        rules.append(rule([("mid", [V(c) for c in kk] + [V("x"), V("z")])], [eqv(V("y"), V("x")) if ar == 3 else eqv(V("x"), V("y")), cl("e", [V("y"), V("z")])]))
+        # eq(.., x, y), e(y, z): a simple join sharing only the last column (index [2] of the ternary form)
+        rules.append(rule([("mid", [V(c) for c in kk] + [V("x"), V("z")])], [eqv(V("x"), V("y")), cl("e", [V("y"), V("z")])]))
         rules.append(rule([eqh(V("x"), V("z"))], [cl("mid", [V(c) for c in kk] + [V("x"), V("z")])]))
     elif feed == "sched":
         # a clock inside the recursive stratum releases facts of different keys at different iterations
@@ -169,10 +169,9 @@ FEEDS = ["plain", "rec_edge", "rec_mid", "sched", "two_strata"]
 
 
 def gen_cfg(rng, arity, feed, par=False):
-    # the pattern "y" of the ternary form (index [2]) does not compile (F2): it has its own witness case
-    pats = sorted(p for p in READ_PATTERNS[arity] if not (arity == 3 and p == "y"))
-    if par and rng.random() < 0.7:
-        pats = [p for p in pats if p != "c01"]      # both columns bound does not compile in parallel mode (own finding)
+    # every subset of bound columns, incl. "y" of the ternary form (index [2], repair 0f251c7) and both columns of
+    # the parallel binary form (repair bfc5173)
+    pats = sorted(READ_PATTERNS[arity])
     n = rng.randint(2, 4)
     reads = []
     for pat in rng.sample(pats, min(n, len(pats))):
@@ -186,7 +185,7 @@ def gen_cfg(rng, arity, feed, par=False):
         extra.append("join")
     elif u < 0.40:
         extra.append("count")
-    elif u < 0.55 and not (par and "c01" not in pats):
+    elif u < 0.55:
         extra.append("neg")
     return dict(arity=arity, feed=feed, reads=reads, extra=extra, par=par)
 
@@ -209,7 +208,7 @@ def gen_cases(tier, seed, prop="C10"):
 # ------------------------------------------------------------------ F2 probe and fixed witnesses
 
 def fixed_cases():
-    """the witnesses of DESIGN section 6 (F1, F2) and of the findings of this check, as cases"""
+    """the witnesses of DESIGN section 6 (F1, F2) and of the findings of this check (all fixed in /repo): must-pass cases"""
     out = []
     # F1: eq(k,b,c) <-- keys(k), eq(k,_,b), next(b,c)   seed (0,1,2), next 2->3->4->5
     rels = [("eq", 3, ("ds", PROVIDER)), ("seed", 3, "rel"), ("pk", 1, "rel"), ("e", 2, "rel"), ("out0", 3, "rel")]
@@ -321,31 +320,7 @@ def run_cases(cases, tag="c10"):
 
 
 def classify(r, k, missing, extra, failure):
-    """known-finding key for a PROG mismatch of a ternary program (None = not a listed class)"""
-    c = r["case"]
-    if c["cfg"]["arity"] != 3:
-        # parallel binary form: the full index declares the key type &(T, T); a rule reading the relation with
-        # both columns bound does not compile
-        if (c["cfg"].get("par") and failure and "compile_error" in failure and "E0308" in failure["compile_error"]
-                and "&&(" in failure["compile_error"] and reads_both_columns(r["tagged"])):
-            return "par_full_index_key_type"
-        return None
-    if failure and "compile_error" in failure:
-        if "ToEqRel2Ind2" in failure["compile_error"]:
-            return "ternary_index_2_missing"
-        return None
-    rec, nhead = eq_strata_info(r["tagged"])
-    if failure and "panic" in failure:
-        if "unwrap" in failure["panic"] and "None" in failure["panic"] and (rec or nhead > 1):
-            return "ternary_merge_drops_delta"
-        return None
-    if failure:
-        return None
-    # simple join starting at the tagged relation with both element columns shared: iter_all of [1,2]
-    if extra and not missing and uses_i12_iter_all(r["tagged"]):
-        return "ternary_ind12_iter_all_unsound"
-    if missing and (rec or nhead > 1) and (not extra or uses_i12_iter_all(r["tagged"])):
-        return "ternary_merge_drops_delta"
+    """known-finding key for a PROG mismatch: none — the classes found by this check are fixed in /repo"""
     return None
 
 
